@@ -10,6 +10,9 @@ package main
 //	P / Q   prime-order block mined in that zone
 //	x       a Quai transaction in zone [0,0]'s pool paying an address of zone [0,1] (intra-region ETX)
 //	y       the same from [0,1] to [0,0]
+//	r       reorganisation: the node switches from the block appended last to its sibling (same
+//	        parents and content, different seal; both assembled before either was appended), at
+//	        every level that block belongs to
 //
 // after a warm-up (which also funds the sender in [0,1] through the path under test) and followed by
 // a drain that gives everything emitted before it the chance to arrive. Intra-region ETXs never see
@@ -57,6 +60,10 @@ type c04TzScen struct {
 	all    []*c04TzBlock    // global append order
 	sent   [2]int           // x / y transactions accepted by the pools
 	sentTx map[common.Hash]int
+	// sibling of the block appended last (same parents, same content, different seal), built before
+	// that block was appended; letter 'r' switches to it
+	sib      *types.WorkObject
+	orphaned int
 }
 
 func newC04TzScen() (*c04TzScen, error) {
@@ -84,10 +91,39 @@ func (s *c04TzScen) close() { s.n.Close() }
 
 var errC04TzInfeasible = errors.New("infeasible")
 
-// step performs one letter. Errors: errC04TzInfeasible (wanted order impossible in this state),
-// core.VOwnBlockRejected (violation), anything else = harness.
-func (s *c04TzScen) step(ch byte) error {
+// c04TzSiblingRefused: the node refuses to reorganise to the sibling of its newest block.
+type c04TzSiblingRefused struct{ err error }
+
+func (e c04TzSiblingRefused) Error() string { return e.err.Error() }
+
+// step performs one letter (next = the letter after it, 0 at the end). Errors: errC04TzInfeasible
+// (wanted order impossible in this state), core.VOwnBlockRejected / c04TzSiblingRefused (violations),
+// anything else = harness.
+func (s *c04TzScen) step(ch, next byte) error {
 	switch ch {
+	case 'r':
+		if s.sib == nil || len(s.all) == 0 {
+			return errors.New("letter r without a sibling prepared")
+		}
+		last := s.all[len(s.all)-1]
+		sib := s.sib
+		s.sib = nil
+		r := s.n.Append(last.zone, sib)
+		if r.Err() != nil {
+			return c04TzSiblingRefused{r.Err()}
+		}
+		// the switch must really have happened at every level the block belongs to
+		for ctx := 2; ctx >= r.Order; ctx-- {
+			if s.n.VCurrent(last.zone, ctx) != sib.Hash() || !s.n.VCanonical(last.zone, ctx, sib) || s.n.VCanonical(last.zone, ctx, last.blk) {
+				return fmt.Errorf("after the switch the sibling is not the canonical head of context %d", ctx)
+			}
+		}
+		nb := &c04TzBlock{zone: last.zone, seq: last.seq, blk: sib}
+		s.all[len(s.all)-1] = nb
+		s.chain[last.zone][len(s.chain[last.zone])-1] = nb
+		s.orphaned++
+		s.trace('r', nb)
+		return nil
 	case 'x', 'y':
 		z := int(ch - 'x')
 		from, to := s.k[z][0], common.BytesToAddress(s.k[1-z][0].Addr.Bytes(), core.V2ZoneLoc(z))
@@ -116,17 +152,42 @@ func (s *c04TzScen) step(ch byte) error {
 	default:
 		return fmt.Errorf("unknown letter %c", ch)
 	}
-	blk, err := s.n.Mine(z, order, true)
-	if err != nil {
+	s.sib = nil
+	build := func(salt int64) (*types.WorkObject, error) {
+		blk, err := s.n.Build(z, order, true, salt)
 		var inf core.V2Infeasible
 		if errors.As(err, &inf) {
-			return errC04TzInfeasible
+			return nil, errC04TzInfeasible
 		}
+		return blk, err
+	}
+	blk, err := build(0)
+	if err != nil {
 		return err
 	}
+	var sib *types.WorkObject
+	if next == 'r' {
+		// both siblings are assembled on the same state before either is appended
+		if sib, err = build(7); err != nil {
+			return err
+		}
+		if sib.Hash() == blk.Hash() {
+			return errors.New("siblings are identical")
+		}
+	}
+	if r := s.n.Append(z, blk); r.Err() != nil {
+		return core.VOwnBlockRejected{Err: r.Err()}
+	}
+	s.sib = sib
 	b := &c04TzBlock{zone: z, seq: len(s.all), blk: blk}
 	s.chain[z] = append(s.chain[z], b)
 	s.all = append(s.all, b)
+	s.trace(ch, b)
+	return nil
+}
+
+func (s *c04TzScen) trace(ch byte, b *c04TzBlock) {
+	z, blk := b.zone, b.blk
 	if os.Getenv("VQ_TRACE") != "" {
 		fmt.Printf("  [%c] zone %d num=%v txs=%d out=%d inbound=%d\n", ch, z, blk.NumberArray(), len(blk.Transactions()), len(blk.OutboundEtxs()), len(s.n.VInboundEtxs(z, blk)))
 		for _, t := range blk.Transactions() {
@@ -146,7 +207,6 @@ func (s *c04TzScen) step(ch byte) error {
 			fmt.Printf("      receipt status=%d gas=%d\n", r.Status, r.GasUsed)
 		}
 	}
-	return nil
 }
 
 // pending: cross-zone transactions of zone z that are in the pool but not yet in a block.
@@ -305,16 +365,23 @@ func c04TzRun(word string, p *vx.Part) (key, desc, cls string) {
 	walk := func(phase, w string) (string, string, string) {
 		for i := 0; i < len(w); i++ {
 			var err error
-			if perr := vx.Guard(func() { err = s.step(w[i]) }); perr != "" {
+			var next byte
+			if i+1 < len(w) {
+				next = w[i+1]
+			}
+			if perr := vx.Guard(func() { err = s.step(w[i], next) }); perr != "" {
 				return "panic:" + vx.PanicSite(perr), fmt.Sprintf("word %q, %s step %d (%c): %s", word, phase, i, w[i], perr), ""
 			}
 			var rej core.VOwnBlockRejected
+			var ref c04TzSiblingRefused
 			switch {
 			case err == nil:
 			case err == errC04TzInfeasible:
 				return "", "", fmt.Sprintf("infeasible@%s%d", phase[:1], i)
 			case errors.As(err, &rej):
 				return "own-block-rejected:" + c04TzLetterClass(w[i]), fmt.Sprintf("word %q, %s step %d: the node refuses the block its own workers assembled for letter %c: %v", word, phase, i, w[i], rej.Err), ""
+			case errors.As(err, &ref):
+				return "reorg:sibling-refused:" + c04TzLetterClass(w[i-1]), fmt.Sprintf("word %q, %s step %d: the node refuses to switch from its newest block (letter %c) to that block's sibling (same parents and content, other seal): %v", word, phase, i, w[i-1], ref.err), ""
 			default:
 				return "harness", fmt.Sprintf("word %q, %s step %d (%c): %v", word, phase, i, w[i], err), ""
 			}
@@ -347,7 +414,10 @@ func c04TzRun(word string, p *vx.Part) (key, desc, cls string) {
 	}
 	drainStart := len(s.all)
 	if k, d, c := walk("drain", c04TzDrain); k != "" || c != "" {
-		return k, d, c
+		if c != "" { // the drain is built so that every letter is possible (each dom block follows a zone block of its zone)
+			return "harness", fmt.Sprintf("word %q: the drain %q is infeasible (%s): nothing can be said about loss", word, c04TzDrain, c), ""
+		}
+		return k, d, ""
 	}
 	k, d, st := c04TzMonitor(s, true, drainStart)
 	if k != "" {
@@ -358,7 +428,11 @@ func c04TzRun(word string, p *vx.Part) (key, desc, cls string) {
 	if st.crossEmitted[0] != s.sent[0] || st.crossEmitted[1] != s.sent[1] {
 		return "harness", fmt.Sprintf("word %q: %d/%d cross-zone transactions were accepted by the pools but %d/%d ETXs were emitted", word, s.sent[0], s.sent[1], st.crossEmitted[0], st.crossEmitted[1]), ""
 	}
-	return "", "", st.class()
+	cls = st.class()
+	if s.orphaned > 0 {
+		cls += fmt.Sprintf(",reorgs:%d", s.orphaned)
+	}
+	return "", "", cls
 }
 
 func c04TzLetterClass(ch byte) string {
@@ -381,7 +455,10 @@ func c04TzWords(maxLen int) []string {
 		if len(cur) == maxLen {
 			return
 		}
-		for _, ch := range "abABPQxy" {
+		for _, ch := range "abABPQxyr" {
+			if ch == 'r' && (len(cur) == 0 || !strings.ContainsRune("abABPQ", rune(cur[len(cur)-1]))) {
+				continue // r re-mines the block appended last
+			}
 			rec(cur + string(ch))
 		}
 	}
@@ -394,13 +471,13 @@ func c04TwoZones(c *vx.Ctx) {
 	restore := core.V2Regime()
 	defer restore()
 	c.Assume("two-zones: controller-off regime (ControllerKickInBlock = never); expansion number 1 from genesis (SetupGenesisBlockWithOverride); zone [0,1] is answered 'genesis' when it asks for the parent of the genesis block")
-	c.Rule += "; two-zones: all words over {a,b,A,B,P,Q,x,y} on a prime/region/zone[0,0]/zone[0,1] node between a fixed warm-up and drain, two-zone ETX id monitor after every block"
+	c.Rule += "; two-zones: all words over {a,b,A,B,P,Q,x,y,r} on a prime/region/zone[0,0]/zone[0,1] node between a fixed warm-up and drain, two-zone ETX id monitor after every block"
 	maxLen := 3
 	if c.Thorough() {
 		maxLen = 5
 	}
 	p.Bound("word_length", maxLen)
-	p.Bound("alphabet", "a,b = zone-order block in [0,0],[0,1]; A,B = region-order; P,Q = prime-order; x,y = cross-zone transaction [0,0]->[0,1], [0,1]->[0,0]")
+	p.Bound("alphabet", "a,b = zone-order block in [0,0],[0,1]; A,B = region-order; P,Q = prime-order; x,y = cross-zone transaction [0,0]->[0,1], [0,1]->[0,0]; r = reorganise to the sibling of the block appended last (only directly after a block letter)")
 	p.Bound("warmup", c04TzWarmup)
 	p.Bound("drain", c04TzDrain)
 	p.Note("outcome class = executed/emitted per kind at the end of the walk: 0->1 and 1->0 are intra-region ETXs by direction (the warm-up contributes one 0->1), via-prime are coinbase ETXs (their emitted count includes those emitted during the drain, which need not arrive); infeasible@<phase><i> = CalcOrder cannot give the order letter i asks for in that state, the word is not a behaviour of the system")
